@@ -456,7 +456,7 @@ Proof.
   destruct (is_shadow_kind (kind_of (unptr sft)) || is_atomic_type (unptr sft)).
   - destruct (deref sft y) as [y1|]; [|congruence].
     destruct (find_conv o dn) as [c|].
-    + destruct Ha as [_ [_ Ha]]. destruct Hb as [_ [_ Hb]]. congruence.
+    + destruct Ha as [_ Ha]. destruct Hb as [_ Hb]. congruence.
     + destruct Ha as [_ [ua [Ha [Ha1 Ha2]]]]. destruct Hb as [_ [ub [Hb [Hb1 Hb2]]]].
       subst a b. f_equal. destruct (is_zero y1).
       * rewrite Ha1, Hb1; reflexivity.
